@@ -75,6 +75,30 @@ class Cls:
         return out
 
 
+def strip_inert(tree: ast.AST) -> int:
+    """Remove, inside function bodies, the statements no rule may depend on (astutil.inert: docstrings, pass,
+    logging / print / warnings.warn calls with plain arguments).  Every rule then sees the same program
+    whether or not such statements are added, moved or reworded.  Line numbers of the remaining nodes are kept."""
+    from . import astutil as A
+
+    n = 0
+    for fn in ast.walk(tree):
+        if not isinstance(fn, (ast.FunctionDef, ast.AsyncFunctionDef)):
+            continue
+        for node in ast.walk(fn):
+            for fld in ("body", "orelse", "finalbody"):
+                lst = getattr(node, fld, None)
+                if not (isinstance(lst, list) and lst and isinstance(lst[0], ast.stmt)) or isinstance(node, ast.ClassDef):
+                    continue
+                keep = [st for st in lst if not (A.inert(st) and not any(isinstance(x, (ast.NamedExpr, ast.Await, ast.Yield, ast.YieldFrom)) for x in ast.walk(st)))]
+                if len(keep) != len(lst):
+                    n += len(lst) - len(keep)
+                    if not keep and fld == "body":
+                        keep = [ast.copy_location(ast.Pass(), lst[0])]
+                    setattr(node, fld, keep)
+    return n
+
+
 class Repo:
     def __init__(self, root: str | None = None):
         self.root = root or REPO
@@ -106,6 +130,7 @@ class Repo:
                     tree = ast.parse(src, filename=path)
                 except SyntaxError as e:
                     raise AnalysisError(f"cannot parse {path}: {e}") from e
+                strip_inert(tree)
                 m = Module(name, path, src, tree, hashlib.sha256(raw).hexdigest())
                 self.modules[name] = m
                 self._index(m, tree, prefix="", cls=None, parent=None)
